@@ -18,7 +18,7 @@ func baseProfile(name string) *Profile {
 		FeeW:    []int{3, 3, 2, 1, 1},
 		ScaleW:  []int{5, 2, 2, 1},
 		PassW:   []int{6, 2, 2, 1},
-		GasCutP: 0.06, BatchP: 0.15, DupP: 0.08, TimeoutP: 0.1, SingleTxP: 0.5, EmptyFeeP: 0.04, InitLimitP: 0.35, SimP: 0.12, CrashP: 0.04, GhostTokenP: 0.0015, BigBatchP: 0.04,
+		GasCutP: 0.06, BatchP: 0.15, DupP: 0.08, TimeoutP: 0.1, SingleTxP: 0.5, EmptyFeeP: 0.04, InitLimitP: 0.35, SimP: 0.12, CrashP: 0.04, ByzPlainP: 0.1, BigPassP: 0.004, GhostTokenP: 0.0015, BigBatchP: 0.04,
 		StoreDigests: true,
 		EvidenceRule: "each evaluation is one seeded simulated run: a generated schedule of 25-70 actor events (remote users, relayers, consensus, orbiter authority, downstream admins, dust depositor, byzantine chain, operator) executed against the real application, followed by a drain (faults healed, everything relayed, one probe per route). A run is non-trivial when at least one rule of this property was actually evaluated in it; distinct_nontrivial counts distinct abstract states at packet-delivery instants (paused-protocol set, paused-pair set, paused-action set, limit bucket, number of statistics keys, dust present, environment-health vector, route, receiver encoding).",
 	}
@@ -70,6 +70,7 @@ func profileFor0(name string) *Profile {
 		p.Assumptions = []string{"mode B re-states about 40 lines of wiring; the swap action is harness code using the real bank keeper"}
 	case "C07":
 		p.Shadows = []string{"nomw"}
+		p.ByzPlainP = 0.5
 		p.ClassW = map[string]int{"canon": 15, "refuse": 3, "free": 5, "plain": 40, "nearmiss": 25, "exotic": 2, "multierr": 2}
 		p.W["sendout"], p.W["byz"], p.W["orbadmin"] = 14, 10, 10
 	case "C08":
@@ -121,6 +122,7 @@ func profileFor0(name string) *Profile {
 		p.Checkpoint = []string{"pausequeries"}
 		p.W["checkpoint"], p.W["orbadmin"] = 2, 14
 		p.Shadows = []string{"limitup"}
+		p.BigPassP = 0.05
 		p.PassW = []int{2, 3, 4, 3}
 	case "C19":
 		p.GhostTokenP, p.CrashP = 0.008, 0.12
